@@ -219,3 +219,44 @@ claim("C06",
       "Trusts clang 14 parsing/layout (x86-64 = BPF layout for __u32/__u64 fields), the stub libbpf headers in /verif/cstubs, the UAPI helper "
       "documentation; verifier acceptance, LRU capacity, cross-thread races and kernel struct offsets are not decided.",
       "DESIGN.md §5 C06")
+
+
+# ----------------------------------------------------------------------------------------
+# clauses added by the later seeded rounds (DESIGN §13.6-§13.10); appended so that the claim text lists every rule family that is armed
+def _also(pid, extra):
+    META[pid]["text"] += " Also decided: " + extra
+
+
+_also("C01", "the rule / redirect-state lookups hand the actor's answer through unchanged, a dead actor channel is an error and never "
+             "'no rules' (C01.R7), and the wrappers are reliable awaited round trips.")
+_also("C02", "whichever way the iteration over privileges / assignments is spelled (loops or iterator chains), no call in is_allowed or its "
+             "closures selects by position (find/next/take .. on a hash map's order); a selecting call is accepted only when nothing but "
+             "the presence of its result is used.")
+_also("C03", "the claims every authorizer sees are built from this connection's kernel record (no cache, field-to-field mapping table).")
+_also("C04", "each signed agent call reads key id and value from the key keeper in that very call; query_pairs keeps every item with a "
+             "non-empty name; the canonical form is looked for in the function and its closures (loop or iterator-chain spelling).")
+_also("C05", "every upstream send carries the three inserts on its own path (not only the first send).")
+_also("C06", "the hand-over and audit maps are LRU hash maps on both sides; policy lookups done through a C helper are resolved with "
+             "parameter substitution (key fields and byte-order tags).")
+_also("C07", "lookup and remove open the same map type; remove_audit takes the eBPF object's mutex with a blocking lock() and its failure "
+             "sources are inventoried through helpers and closures.")
+_also("C08", "the key file name is the guid verbatim at store, read-back and restart lookup; the stored text is parsed as stored (no "
+             "lossy repair of damaged bytes).")
+_also("C09", "the 13 actor wrappers the loop relies on are reliable awaited round trips; an iteration that runs one endpoint's rule-id "
+             "update runs the other two (no short-circuit between endpoints); set_*_rules is called on every path of its updated edge.")
+_also("C10", "the authorization header replaces whatever the client sent under that name; the snapshot getters derive everything they "
+             "return from one get_key() round trip, whatever std computation (zip/unzip/map) is applied to it.")
+_also("C11", "the host's mode string maps to Disabled/Audit/Enforce by a case-folded table; the summary maps are modified only in the "
+             "Add* arms and the periodic clear (reading or publishing never consumes the records); the entry-API spelling of "
+             "'vacant -> 1, occupied -> += 1' is accepted.")
+_also("C12", "the key text can reach an error value only on the Err outcome of hex::decode of that very text (pins the input class of the "
+             "recorded findings).")
+_also("C13", "the boundary helpers return a borrowed prefix of their argument; an offset chosen by "
+             "find(|i| s.is_char_boundary(i)).unwrap_or(0) is an accepted idiom.")
+_also("C16", "the five provision wrappers are reliable awaited round trips; the deadline and the start of the status tasks do not wait for "
+             "the host.")
+_also("C19", "get_log_files selects by name, never by position in the directory listing (take_while/skip/take/truncate ..), so archives "
+             "of a shared log folder are always candidates for deletion.")
+for _p in list(META):
+    META[_p]["note"] += (" Functions absent from known_fns.txt (new helpers, sync or async awaited at once) are analysed in place at "
+                         "their call sites; Option/Result combinators taking a closure are read through (DESIGN §7).")
